@@ -346,6 +346,11 @@ JudgeOut judge(const json &plan)
 				if ((role == "v" && vt == "str") || role == "a" || role == "t") {
 					faults.push_back({"bad_escape", {{"key", "mut"}, {"value", json::array({ci, ti, (ci + ti) % 2 ? "\"ab\\400\"" : "\"\\9z\""})}}});
 				}
+				// an include statement whose target cannot be opened: reported for the including file, at the statement
+				if (role == "a" && chunks[ci].contains("inc") && !chunks[ci].contains("incs")) {
+					static const char *bad_targets[] = {"\"/t/nonexistent.conf\"", "\"/t/noperm.conf\"", "\"/t/adir\""};
+					faults.push_back({"include_target_cannot_be_opened", {{"key", "mut"}, {"value", json::array({ci, ti, bad_targets[(ci + ti + fp) % 3]})}}});
+				}
 				if (role == "o")
 					faults.push_back({"wrong_punctuation", {{"key", "mut"}, {"value", json::array({ci, ti, ")"})}}});
 				if (role == "p")
@@ -358,6 +363,17 @@ JudgeOut judge(const json &plan)
 					faults.push_back({"premature_end_inside_token", {{"key", "cutat"}, {"value", json::array({ci, ti, 1})}}});
 					if (tlen >= 4)
 						faults.push_back({"premature_end_inside_token", {{"key", "cutat"}, {"value", json::array({ci, ti, tlen - 1})}}});
+				}
+				if (!s.top && tlen >= 2) {
+					// an included file that ends inside a single-quoted string: the scanner itself reports it, for that file.
+					// (Inside a double-quoted string or a block comment the scanner carries on in the includer - "the text in
+					// place", C13 - so where such an input is finally refused is not this fault's business.)
+					std::string raw = from_json_bytes(chunks[ci]["t"].get<std::string>()).substr(toks[ti][0].get<size_t>(), 2);
+					if (raw[0] == '\'') {
+						faults.push_back({"included_file_ends_inside_token", {{"key", "cutat"}, {"value", json::array({ci, ti, 1})}}});
+						if (tlen >= 4)
+							faults.push_back({"included_file_ends_inside_token", {{"key", "cutat"}, {"value", json::array({ci, ti, tlen - 1})}}});
+					}
 				}
 				for (auto &f : faults) {
 					std::string key = f.second["key"].get<std::string>();
@@ -398,7 +414,7 @@ Property P = [] {
 			 "because the text before the injection point is valid and the parser is one-pass, the first diagnostic must be about the injected token",
 			 "the return code is observed, not predicted: a damaged text that is still accepted must deliver no diagnostic (whether it should be accepted is C01)",
 			 "for a cut inside a token that spans several lines any line from the token's first line to the line on which the delivered bytes end is accepted",
-			 "a plan whose undamaged text is not accepted is discarded and counted; premature ends inside included files are not injected (the scanner continues in the includer by design)",
+			 "a plan whose undamaged text is not accepted is discarded and counted; premature ends inside included files are injected only inside single-quoted strings (anywhere else the scanner continues in the includer by design)",
 			 "the schedule dimension is empty for this property: the fault is a corruption / cut at a known instant of a known file in the simulated include tree"};
 	p.probes = {"rejected_with_position_checked", "error_inside_included_file", "callback_refusal_position_checked"};
 	p.components = {{"confuse.c parser and cfg_error", "real"}, {"lexer line bookkeeping", "real"}, {"error callback", "stub: records file and line of the context handed to it"}, {"file namespace", "stub"}};
